@@ -571,6 +571,10 @@ def run_case(ctx):
             kinds = list(seqs[ctx.index])
         elif cls == "random_long":
             n = rng.randint(5, 30 if ctx.quick else 60)
+            if ctx.index % 5 == 4:
+                # lists beyond any batch of 32 / 64 / 128 tasks, lengths on both sides of the multiples
+                n = rng.choice([63, 64, 65, 66, 97, 121, 129, 131])
+                ctx.mon.note("random_long:beyond-64-tasks")
             w = [rng.random() + 0.05 for _ in G.KINDS]
             kinds = rng.choices(G.KINDS, weights=w, k=n)
         else:
